@@ -18,7 +18,8 @@ RULE = ('cases are (table, labels, format configuration): every fill of every ta
         'blanks) x {string, file} x {utf-8, utf-16, latin-1 when encodable} x table indent 0-8 x csv {bools_as_int, '
         'excel / excel-tab / unix dialect, object_header} x suffix case for load(). Four independent sub-oracles: '
         '(1) round trip through tostring/fromstring, tofile/fromfile, load, load_csv, load_cxt, make_context, '
-        'Definition.fromfile/tostring; (2) an independent reader written from the format description recovers the '
+        'Definition.fromfile/tostring, and repeated tostring() calls on the same context object with other option '
+        'values (indent, dialect, bools_as_int); (2) an independent reader written from the format description recovers the '
         'same objects, properties and cells from table, cxt, csv and wiki-table output; (3) text produced by an '
         'independent writer in layout variants the description allows loads as the same context; (4) FIMI rows and '
         'concept .dat files list exactly the true cells / members. Non-trivial: labels contain a delimiter of another '
@@ -151,6 +152,11 @@ def check_one(case, ctx, files=True):
                 layout = tf.render_table(o, p, bools, cfg['indent'])
                 ctx.check(text == layout.rstrip(), 'layout/table', q,
                           lambda: f'table text {text!r} is not the documented layout {layout!r}')
+                # same object, same option name, other value (then the first value again)
+                for ind in (cfg['indent'] + 3, cfg['indent']):
+                    t2 = ctx.call('tostring(table, indent2)', q, context.tostring, 'table', indent=ind)
+                    ctx.check(t2 == tf.render_table(o, p, bools, ind).rstrip(), 'layout/table-second-indent', q,
+                              lambda: f'second tostring(indent={ind}) on the same context gives {t2!r}')
                 ctx.check(ctx.call('Definition.tostring', q, lambda: concepts.Definition(o, p, bools).tostring()) ==
                           context.tostring(), 'definition-tostring/table', q, 'Definition and Context table strings differ')
                 for style in ('docs', 'tight', 'comments'):
@@ -197,6 +203,19 @@ def check_one(case, ctx, files=True):
                 hdr, ro, rp, rb = ctx.call('read_csv', q, tf.read_csv, text, delim)
                 same_triple('reader/csv', (ro, rp, rb))
                 ctx.check(hdr == (cfg['object_header'] or ''), 'reader/csv-object-header', q, lambda: f'object header {hdr!r}')
+                # same object, other option values: every (dialect, bools_as_int) combination in turn
+                for d2 in ('excel', 'excel-tab', 'unix'):
+                    for int2 in (not as_int, as_int):
+                        t2 = ctx.call('tostring(csv, second options)', q,
+                                      lambda: context.tostring('csv', dialect=d2, bools_as_int=int2))
+                        hdr2, ro2, rp2, rb2 = ctx.call('read_csv(second options)', q, tf.read_csv, t2,
+                                                       '\t' if d2 == 'excel-tab' else ',')
+                        same_triple('reader/csv-second-options', (ro2, rp2, rb2))
+                        cells = {c for line in tf.parse_csv(t2, '\t' if d2 == 'excel-tab' else ',')[1:] for c in line[1:]}
+                        ctx.check(cells <= ({'1', '0'} if int2 else {'X', ''}), 'layout/csv-second-options', q,
+                                  lambda: f'tostring(csv, dialect={d2}, bools_as_int={int2}) on a reused context has cells {sorted(cells)}')
+                        same('roundtrip/csv-second-options', ctx.call('fromstring(csv, second options)', q,
+                             lambda: concepts.Context.fromstring(t2, 'csv', dialect=d2, bools_as_int=int2)))
                 for quote_all in (False, True):
                     for eol in ('\r\n', '\n'):
                         src = tf.write_csv(o, p, bools, quote_all=quote_all, as_int=as_int, eol=eol)
